@@ -89,6 +89,7 @@ func (e *enc) callCommon(b *ssa.BasicBlock, ins ssa.Instruction, cc *ssa.CallCom
 			}
 		}
 		e.callOrd[key]++
+		e.countCall(key)
 		e.siteAsserts(ins, fmt.Sprintf("call %d of %s", e.callOrd[key], key), cc.Method.Type().(*types.Signature), append([]string{recv}, args...), R)
 		if fc := e.w.CS.Ifaces[key]; fc != nil {
 			fc.Used = true
@@ -104,6 +105,11 @@ func (e *enc) callCommon(b *ssa.BasicBlock, ins ssa.Instruction, cc *ssa.CallCom
 	callee := cc.StaticCallee()
 	if callee == nil {
 		fv := e.val(cc.Value)
+		e.callOrd["dynamic"]++
+		e.countCall("dynamic")
+		if sig, ok := cc.Value.Type().Underlying().(*types.Signature); ok {
+			e.siteAsserts(ins, fmt.Sprintf("call %d of dynamic", e.callOrd["dynamic"]), sig, args, R)
+		}
 		e.addI("safe", "nil-func", ins, R, fmt.Sprintf("(not (= %s 0))", fv))
 		havocRes()
 		e.callHook(ins, "", nil, R)
@@ -112,6 +118,7 @@ func (e *enc) callCommon(b *ssa.BasicBlock, ins ssa.Instruction, cc *ssa.CallCom
 	}
 	key := funcKey(callee)
 	e.callOrd[key]++
+	e.countCall(key)
 	if callee.Signature.Recv() != nil && len(args) > 0 && callee.Pkg != nil && e.w.InRepo[callee.Pkg] {
 		if _, ok := cc.Args[0].Type().Underlying().(*types.Pointer); ok && !e.localAlloc[args[0]] {
 			e.addI("safe", "nil-recv", ins, R, fmt.Sprintf("(not (= %s 0))", args[0]))
@@ -338,6 +345,18 @@ func (e *enc) builtin(b *ssa.BasicBlock, ins ssa.Instruction, bi *ssa.Builtin, c
 		hv()
 		e.note("builtin " + bi.Name())
 	}
+}
+
+// countCall maintains the ghost call counter of a callee mentioned in ncalls().
+func (e *enc) countCall(key string) {
+	if !e.countKeys[key] {
+		return
+	}
+	arr := "G_n:" + key
+	e.harr(arr, "Int")
+	old := e.hname(arr)
+	nv := e.bump(arr)
+	e.assume(fmt.Sprintf("(= %s (+ %s 1))", nv, old))
 }
 
 func (e *enc) preciseAppend() bool {
@@ -585,6 +604,9 @@ func (e *enc) ret(b *ssa.BasicBlock, r *ssa.Return) {
 		rts = append(rts, v.Type())
 	}
 	e.returnHook(b, r, R)
+	e.retVals, e.retTypes = rets, rts
+	e.siteAsserts(r, "return", nil, nil, R)
+	e.retVals, e.retTypes = nil, nil
 	if e.fc == nil || e.fc.Trusted {
 		return
 	}
@@ -774,6 +796,14 @@ func (e *enc) siteAsserts(ins ssa.Instruction, site string, sig *types.Signature
 		}
 		e.usedSites[site] = true
 		env := e.siteEnv(ins)
+		if site == "return" {
+			renv := e.resultEnv(e.retVals, e.retTypes)
+			for k, v := range renv.vars {
+				if strings.HasPrefix(k, "result") {
+					env.vars[k] = v
+				}
+			}
+		}
 		if sig != nil {
 			off := 0
 			if sig.Recv() != nil {
